@@ -28,6 +28,8 @@ import (
 //                   reference evaluator on the documented core, (2) metamorphic relations,
 //                   (3) recover() + watchdog around every request
 //   multi-agg       aggregates over SEVERAL targets (two relations / inline arrays / collections), see c08_multi_target.go
+//   f32-like-group  own collection: Float32 fields and arrays against Float twins, the _like family on a plain and an
+//                   indexed field, limit/offset inside _group, groupBy over colliding key values, see c08_float32_like_group.go
 //   malformed       token-level mutations of valid requests + a fixed list of pathological requests
 //   signed          commits / latestCommits / _version over SIGNED commits, every subset of commit fields
 //   json-order      order on a JSON field that holds values of different types
@@ -90,6 +92,17 @@ func c08Cases(seed uint64, tier string) []core.Case {
 	for ; nMal > 0; nMal-- {
 		cs = append(cs, core.MkCase("malformed", rng.Uint64(), c08Params{NU: 1 + rng.IntN(6), NG: 1 + rng.IntN(2), Queries: 200}))
 	}
+	// appended (not inserted): a case's generator is derived from its position in this list
+	cs = append(cs, c08xCases(seed, tier)...)
+	if only := os.Getenv("C08_DEV_ONLY_KIND"); only != "" { // development aid
+		var sel []core.Case
+		for _, c := range cs {
+			if c.Kind == only {
+				sel = append(sel, c)
+			}
+		}
+		return sel
+	}
 	return cs
 }
 
@@ -106,12 +119,12 @@ func init() {
 		Cases:       c08Cases,
 		Run:         c08Run,
 		CaseTimeout: 10 * time.Minute,
-		Floors: []string{"ref_rows_judged", "metamorphic_not", "metamorphic_and_or", "order_checks", "order_multikey_first_key_ties", "limit_checks",
+		Floors: append([]string{"ref_rows_judged", "metamorphic_not", "metamorphic_and_or", "order_checks", "order_multikey_first_key_ties", "limit_checks",
 			"edge_value_checks", "agg__count", "agg__sum", "agg__avg", "agg__min", "agg__max", "agg_in_group", "agg_inner_filter", "group_partition_checks",
 			"agg_multi_target", "agg_multi_target__count", "agg_multi_target__sum", "agg_multi_target__avg", "agg_multi_target__min", "agg_multi_target__max",
 			"agg_multi_target_minima_differ", "agg_multi_target_maxima_differ", "agg_multi_target_in_group", "agg_multi_target_top_level", "agg_multi_target_inner_filter",
 			"signed_commit_queries_without_signature", "signed_commit_queries_with_signature", "malformed_requests", "pathological_requests", "memstore_requests", "requests_answered_error",
-			"agg_inline_array_offset-only", "agg_inline_array_slice_shorter_than_array", "alias_on_aggregate_rows_judged", "alias_numeric_laws", "alias_numeric_data_int_literal_float", "alias_numeric_data_float_literal_int", "alias_numeric_literal_ties_with_a_value"},
+			"agg_inline_array_offset-only", "agg_inline_array_slice_shorter_than_array", "alias_on_aggregate_rows_judged", "alias_numeric_laws", "alias_numeric_data_int_literal_float", "alias_numeric_data_float_literal_int", "alias_numeric_literal_ties_with_a_value"}, c08xFloors...),
 		Assumptions: []string{
 			"null sorts before every value (ASC); the documentation does not say so, the rule is the implementation's and is used only to judge order keys",
 			"comparisons that involve null are outside the reference evaluator (three-valued: such rows are not judged); they are covered by the metamorphic laws only",
@@ -130,6 +143,8 @@ func c08Run(ctx context.Context, c core.Case, r *core.Rec) {
 		c08RunData(ctx, c, p, r)
 	case c.Kind == "multi-agg":
 		c08RunMultiAgg(ctx, c, p, r)
+	case c.Kind == "f32-like-group":
+		c08RunF32LikeGroup(ctx, c, p, r)
 	case c.Kind == "malformed":
 		c08RunMalformed(ctx, c, p, r)
 	case c.Kind == "signed":
